@@ -249,11 +249,82 @@ func cSkelStmt(st *snode) string {
 	return "(other " + st.head() + ")"
 }
 
-// cmdCFlow: generated programs -> for every function: (cflow DIALECT (ir SKEL) (c SKEL)).
+// cflowOne: one WGSL source -> for every function: (cflow DIALECT (ir SKEL) (c SKEL)).
+func cflowOne(c *ctx, dialect, src, tag string, bound bool) {
+	mod, _ := frontEnd(src)
+	if mod == nil {
+		c.count("rejected")
+		return
+	}
+	var text string
+	var r stageResult
+	switch dialect {
+	case "hlsl":
+		op := hlsl.DefaultOptions()
+		op.ForceLoopBounding = bound
+		r = guard("hlsl", func() error { s, _, err := hlsl.Compile(mod, op); text = s; return err })
+	case "msl":
+		op := msl.DefaultOptions()
+		op.ForceLoopBounding = bound
+		// bounds-check guards are `if`s of their own; the control-flow tie is made on unguarded text
+		op.BoundsCheckPolicies.Index = msl.BoundsCheckUnchecked
+		op.BoundsCheckPolicies.Buffer = msl.BoundsCheckUnchecked
+		r = guard("msl", func() error { s, _, err := msl.Compile(mod, op); text = s; return err })
+	case "glsl":
+		r = guard("glsl", func() error {
+			s, _, err := glsl.Compile(mod, glsl.Options{LangVersion: glsl.Version430, EntryPoint: "main"})
+			text = s
+			return err
+		})
+	}
+	if r.err != "" {
+		c.count("backend-error")
+		return
+	}
+	unit, perr := cparse(text)
+	if perr != nil {
+		c.count("cparse-error")
+		return
+	}
+	u := sparse(unit)
+	byName := map[string]*snode{}
+	for _, f := range funcsOf(u) {
+		byName[strings.TrimSuffix(f.kids[3].atom, "_")] = f
+	}
+	emit := func(name string, body ir.Block) {
+		f, ok := byName[strings.TrimSuffix(name, "_")]
+		if !ok {
+			c.count("function-not-in-text")
+			return
+		}
+		c.line("cases.txt", fmt.Sprintf("(cflow %s (ir %s) (c %s))", dialect, irSkelBlock(body), cSkelStmts(f.kids[5].kids[1:])))
+		c.line("src.txt", q(src))
+		c.line("text.txt", q(text))
+		c.line("tags.txt", tag+":"+dialect+" fn="+name)
+		c.count("functions")
+	}
+	for fi := range mod.Functions {
+		emit(mod.Functions[fi].Name, mod.Functions[fi].Body)
+	}
+	if tag == "cflowenum" {
+		return // the entry point is the same one-call body in every enumerated program
+	}
+	for ei := range mod.EntryPoints {
+		emit(mod.EntryPoints[ei].Name, mod.EntryPoints[ei].Function.Body)
+	}
+}
+
+// cmdCFlow: generated programs (`cflow D`) or the exhaustive enumeration of small statement trees (`cflow D enum SIZE`).
 func cmdCFlow(c *ctx) {
 	dialect := "msl"
 	if len(c.args) > 0 {
 		dialect = c.args[0]
+	}
+	if len(c.args) > 2 && c.args[1] == "enum" {
+		size := 4
+		fmt.Sscan(c.args[2], &size)
+		cflowEnum(c, dialect, size)
+		return
 	}
 	for i := 0; i < c.n; i++ {
 		o := defaultGenOpts(c)
@@ -262,65 +333,7 @@ func cmdCFlow(c *ctx) {
 		o.contCall = c.chance(0.15)
 		o.fwdNest = c.chance(0.2)
 		m, _ := genModule(c, o)
-		src := m.wgsl()
-		mod, _ := frontEnd(src)
-		if mod == nil {
-			c.count("rejected")
-			continue
-		}
-		var text string
-		var r stageResult
-		switch dialect {
-		case "hlsl":
-			op := hlsl.DefaultOptions()
-			op.ForceLoopBounding = c.chance(0.5)
-			r = guard("hlsl", func() error { s, _, err := hlsl.Compile(mod, op); text = s; return err })
-		case "msl":
-			op := msl.DefaultOptions()
-			op.ForceLoopBounding = c.chance(0.5)
-			// bounds-check guards are `if`s of their own; the control-flow tie is made on unguarded text
-			op.BoundsCheckPolicies.Index = msl.BoundsCheckUnchecked
-			op.BoundsCheckPolicies.Buffer = msl.BoundsCheckUnchecked
-			r = guard("msl", func() error { s, _, err := msl.Compile(mod, op); text = s; return err })
-		case "glsl":
-			r = guard("glsl", func() error {
-				s, _, err := glsl.Compile(mod, glsl.Options{LangVersion: glsl.Version430, EntryPoint: "main"})
-				text = s
-				return err
-			})
-		}
-		if r.err != "" {
-			c.count("backend-error")
-			continue
-		}
-		unit, perr := cparse(text)
-		if perr != nil {
-			c.count("cparse-error")
-			continue
-		}
-		u := sparse(unit)
-		byName := map[string]*snode{}
-		for _, f := range funcsOf(u) {
-			byName[strings.TrimSuffix(f.kids[3].atom, "_")] = f
-		}
-		emit := func(name string, body ir.Block) {
-			f, ok := byName[strings.TrimSuffix(name, "_")]
-			if !ok {
-				c.count("function-not-in-text")
-				return
-			}
-			c.line("cases.txt", fmt.Sprintf("(cflow %s (ir %s) (c %s))", dialect, irSkelBlock(body), cSkelStmts(f.kids[5].kids[1:])))
-			c.line("src.txt", q(src))
-			c.line("text.txt", q(text))
-			c.line("tags.txt", "cflow:"+dialect+" fn="+name)
-			c.count("functions")
-		}
-		for fi := range mod.Functions {
-			emit(mod.Functions[fi].Name, mod.Functions[fi].Body)
-		}
-		for ei := range mod.EntryPoints {
-			emit(mod.EntryPoints[ei].Name, mod.EntryPoints[ei].Function.Body)
-		}
+		cflowOne(c, dialect, m.wgsl(), "cflow", c.chance(0.5))
 	}
 }
 
